@@ -46,6 +46,15 @@ def dump(dt, names, kind, prefer_order=True):
                 label.append(-99)
         arr = np.asarray(sub["pixel"].values, dtype=float).reshape(-1)
         sig = np.asarray(sub["signal"].values, dtype=float).reshape(-1) if "signal" in sub else np.zeros(1)
+        # the other buckets written by the probe must tell the same story (else the entry is reported as undecodable)
+        aux_bad = False
+        if kind in ("enc", "encs"):
+            pho = np.asarray(sub["photon"].values, dtype=float).reshape(-1) if "photon" in sub else None
+            if pho is None or pho.shape != arr.shape or not np.array_equal(pho, arr):
+                aux_bad = True
+        # sequential / custom mode: the run index is the 'id' coordinate
+        if "id" in pdims and "id" in sub.coords and int(np.asarray(sub.coords["id"].values)) != pos[pdims.index("id")]:
+            label = [-97] + label[1:]
         if kind == "encs":
             # one column per parameter: column k = code of the value parameter k's model instance received
             if arr.size != len(names) or np.isnan(arr).any() or np.isnan(sig).any():
@@ -56,6 +65,8 @@ def dump(dt, names, kind, prefer_order=True):
                     dec = vp.decode(int(x))
                     data.append(dec[0] if dec is not None and len(dec) == 1 else -88)
                 mem = int(sig.sum())
+                if aux_bad:
+                    data, mem = None, -2
             cells.append(dict(label=label, data=data, mem=mem))
             continue
         if arr.size == 0 or np.isnan(arr).any() or not np.all(arr == arr[0]):
@@ -65,6 +76,8 @@ def dump(dt, names, kind, prefer_order=True):
             data, mem = [c % 2 ** 20, c // 2 ** 20], int(sig[0])
         else:
             data, mem = vp.decode(int(arr[0])), int(sig[0]) if not np.isnan(sig).any() else -1
+            if data is not None and aux_bad:
+                data, mem = None, -2
         cells.append(dict(label=label, data=data, mem=mem))
     return shape, cells
 
@@ -219,27 +232,55 @@ def handle_obs(case):
 
 
 def handle_islands(case):
-    """ArchipelagoDataTree._build with parallel=False / True: the seed of the population of island k."""
+    """ArchipelagoDataTree._build with parallel=False / True (optionally with the dask batch fitness evaluator, under a
+    dask scheduler, followed by one evolution): per island the seed of its population, the first fitness and -- after
+    the evolution -- the champion.  The global pygmo seed is set before each construction, like run_calibration does."""
+    import dask
     import pygmo as pg
     import verif_probes_c07 as vp
     from pyxel.calibration import Algorithm
     from pyxel.calibration.archipelago_datatree import ArchipelagoDataTree
-    from pyxel.calibration.user_defined import DaskIsland
+    from pyxel.calibration.user_defined import DaskBFE, DaskIsland
 
-    out = {}
-    for par in (False, True):
+    def q(x):
+        return int(round(float(x) * 2 ** 20))
+
+    def one(par, sched):
+        cfg = {}
+        if sched:
+            cfg["scheduler"] = sched["scheduler"]
+            if sched.get("workers"):
+                cfg["num_workers"] = sched["workers"]
         try:
-            algo = Algorithm(type="sade", generations=1, population_size=case["pop"])
-            arch = ArchipelagoDataTree(num_islands=case["n"], udi=DaskIsland(), algorithm=algo,
-                                       problem=vp.SlowProblem(case.get("scale", 0.0) if par else 0.0), topology=pg.unconnected(),
-                                       pop_size=case["pop"], pygmo_seed=case["seed"], parallel=par)
-            isl = []
-            for island in arch._pygmo_archi:
-                pop = island.get_population()
-                isl.append(dict(seed=int(pop.get_seed()) % (2 ** 31), f0=int(pop.get_f()[0][0])))
-            out["par" if par else "seq"] = isl
+            with dask.config.set(**cfg):
+                pg.set_global_rng_seed(seed=case["seed"] % 100000)
+                algo = Algorithm(type="sade", generations=case.get("generations", 1), population_size=case["pop"])
+                arch = ArchipelagoDataTree(num_islands=case["n"], udi=DaskIsland(), algorithm=algo,
+                                           problem=vp.SlowProblem(case.get("scale", 0.0) if par else 0.0),
+                                           topology=pg.unconnected(), pop_size=case["pop"], pygmo_seed=case["seed"],
+                                           bfe=(DaskBFE(chunk_size=case.get("chunk")) if case.get("bfe") else None),
+                                           parallel=par)
+                isl = []
+                for island in arch._pygmo_archi:
+                    pop = island.get_population()
+                    isl.append(dict(seed=int(pop.get_seed()) % (2 ** 31), f0=int(pop.get_f()[0][0])))
+                if case.get("evolve"):
+                    arch._pygmo_archi.evolve()
+                    arch._pygmo_archi.wait_check()
+                    for k, island in enumerate(arch._pygmo_archi):
+                        pop = island.get_population()
+                        isl[k]["champ_f"] = int(pop.champion_f[0])
+                        isl[k]["champ_x"] = [q(x) for x in pop.champion_x]
+            return isl
         except Exception as ex:  # noqa: BLE001
-            out["par" if par else "seq"] = dict(raised=type(ex).__name__, msg=str(ex)[:200])
+            return dict(raised=type(ex).__name__, msg=str(ex)[:200])
+
+    out = dict(seq=one(False, dict(scheduler="synchronous")))
+    pars = []
+    for sched in case.get("scheds") or [None]:
+        pars.append(one(True, sched))
+    out["par"] = pars[0]
+    out["pars"] = pars
     return out
 
 
